@@ -262,6 +262,90 @@ def gen_sparse_link_room(rng, variant=None, need_premise=True, tries=12):
     return last
 
 
+def relabel_ids(room, new_ids):
+    """The same room with its stations renamed: i-th smallest old id -> new_ids[i] (order preserving when new_ids is
+    sorted, so that the estimator's lowest-id conventions see the same geometry)."""
+    old = sorted(int(k) for k in room['bs'])
+    mp = dict(zip(old, new_ids))
+    out = dict(room)
+    out['bs'] = {str(mp[int(k)]): v for k, v in room['bs'].items()}
+    out['vis'] = [[mp[int(b)] for b in s] for s in room['vis']]
+    return out
+
+
+def colliding_ids(rng, k=None):
+    """(a, a2, b) with a < a2 < b and (a << k) | b == (a2 << k) | b: the pairs (a, b) and (a2, b) collide under a key
+    that packs the ids into k bits each (b needs more than k bits)."""
+    k = k or rng.randint(3, 8)
+    x = rng.randint(1, 3)
+    t = rng.choice([i for i in range(2) if x >> i & 1])
+    a0 = rng.randrange(1 << k)
+    a, a2 = a0 & ~(1 << t), a0 | (1 << t)
+    b = (x << k) | rng.randrange(1 << k)
+    assert a < a2 < b and (a << k) | b == (a2 << k) | b
+    return k, a, a2, b
+
+
+def wide_ids(rng, n):
+    """n distinct station ids, sorted: small (0..15), up to 255, large ints, or a set that collides under (a << k) | b."""
+    r = rng.random()
+    if r < 0.3 and n >= 3:
+        _k, a, a2, b = colliding_ids(rng)
+        ids = {a, a2, b}
+        while len(ids) < n:
+            ids.add(b + rng.randint(1, 200))
+    elif r < 0.6:
+        ids = set(rng.sample(range(256), n))
+    elif r < 0.8:
+        ids = set(rng.sample(range(16, 1 << 16), n))
+    else:
+        ids = set()
+        while len(ids) < n:
+            ids.add(rng.choice([rng.randrange(1 << 31), rng.randrange(1 << 40), (1 << 32) + rng.randrange(64), 255, 256]))
+    return sorted(ids)
+
+
+def gen_colliding_id_room(rng, k=None, need_premise=True, tries=12):
+    """3..5 stations whose two lowest-id pairs (a, b), (a2, b) collide under a k-bit packed pair key, partial visibility
+    chain in which BOTH colliding pairs are the lowest-id pair of several samples ((a, b) samples never see a2 and vice
+    versa), 6..14 poses.  Re-drawn until the premise of the decision-logic theorems holds (from the truth)."""
+    last = None
+    for _ in range(tries):
+        kk, a, a2, b = colliding_ids(rng, k)
+        n_bs = rng.randint(3, 5)
+        extras = []
+        while len(extras) < n_bs - 3:
+            e = b + rng.randint(1, 300)
+            if e not in extras:
+                extras.append(e)
+        room = gen_room(rng, n_bs=n_bs, n_cf=rng.randint(6, 14), mode='full')
+        room = relabel_ids(room, sorted([a, a2, b] + extras))
+        n = len(room['cf'])
+        vis = []
+        for i in range(n):
+            base = [a, b] if i % 2 == 0 else [a2, b]
+            if i >= 2 and extras and rng.random() < 0.5:
+                base = base + rng.sample(extras, rng.randint(1, len(extras)))
+            vis.append(base)
+        for e in extras:                       # every extra station is linked at least twice
+            if sum(1 for s in vis if e in s) < 2:
+                for i in rng.sample(range(n), 2):
+                    if e not in vis[i]:
+                        vis[i] = vis[i] + [e]
+        room = _retimed(rng, room, vis, 'colliding_ids_k%d' % kk)
+        last = room
+        if len(linked_components([s for s in room['vis'] if len(set(s)) >= 2])) != 1:
+            continue
+        if not need_premise:
+            return room
+        try:
+            if decision_premise(room)['holds']:
+                return room
+        except Exception:  # noqa
+            return room
+    return last
+
+
 SEAM_EPS = [0.0, 0.0, 0.0, 1e-9, -1e-9, 1e-7, -1e-6, 1e-5, -1e-4, 1e-3]
 LAYOUTS = {
     'opposite2': [(1, 0), (-1, 0)],
